@@ -13,6 +13,7 @@ import (
 	"github.com/taskctl/taskctl/pkg/runner"
 	"github.com/taskctl/taskctl/pkg/scheduler"
 	"github.com/taskctl/taskctl/pkg/task"
+	"github.com/taskctl/taskctl/pkg/variables"
 )
 
 func init() { props["C11"] = runC11 }
@@ -198,14 +199,19 @@ func isPrintableASCII(s string) bool {
 }
 
 // .Output of the previous command inside one task
-func outputChainCase(col *Collector, words []string) {
+func outputChainCase(col *Collector, words []string, failAt int) {
 	t := task.NewTask()
 	t.Name = "chain"
+	t.AllowFailure = failAt >= 0
 	for i, w := range words {
+		tail := ""
+		if i == failAt {
+			tail = "; exit 4"
+		}
 		if i == 0 {
-			t.Commands = append(t.Commands, fmt.Sprintf("echo %s", w))
+			t.Commands = append(t.Commands, fmt.Sprintf("echo %s%s", w, tail))
 		} else {
-			t.Commands = append(t.Commands, fmt.Sprintf("echo 'prev=[{{.Output}}]'; echo %s", w))
+			t.Commands = append(t.Commands, fmt.Sprintf("echo 'prev=[{{.Output}}]'; echo %s%s", w, tail))
 		}
 	}
 	r, _ := runner.NewTaskRunner()
@@ -222,7 +228,7 @@ func outputChainCase(col *Collector, words []string) {
 		want.WriteString(cur)
 		prev = cur
 	}
-	cs := Case{Tags: []string{"output-chain"}, NonTrivial: true, Replay: fmt.Sprintf("output-chain %v", words)}
+	cs := Case{Tags: []string{"output-chain"}, NonTrivial: true, Replay: fmt.Sprintf("output-chain %v allowed-failure-at=%d", words, failAt)}
 	if err != nil {
 		cs.Fail, cs.Sig = "run failed: "+err.Error(), "c11-run"
 	} else if t.Output() != want.String() {
@@ -283,7 +289,60 @@ func runC11(col *Collector, tier string, seed int64) {
 	parallel(len(specs), 16, func(i int) { capCase(col, specs[i], tags[i]) })
 	for k := 0; k < 6; k++ {
 		w := []string{"one", "two", "three", "four"}[:2+rng.Intn(3)]
-		outputChainCase(col, w)
+		outputChainCase(col, w, -1)
+		outputChainCase(col, w, rng.Intn(len(w)-1))
+	}
+	for k := 0; k < 4; k++ {
+		sharedProducerCase(col, 2+k%2)
 	}
 	_ = unicode.IsUpper
+}
+
+// one task used by several stages of a pipeline one after another: after each execution its captured output is
+// that execution's output only, and a consumer that follows sees the last one
+func sharedProducerCase(col *Collector, uses int) {
+	dir := newScratchDir("c11s")
+	defer os.RemoveAll(dir)
+	p := task.NewTask()
+	p.Name = "greet"
+	p.Commands = []string{"echo hello $WHO"}
+	var stages []*scheduler.Stage
+	prev := ""
+	for i := 0; i < uses; i++ {
+		st := &scheduler.Stage{Name: fmt.Sprintf("use%d", i), Task: p, Env: variables.FromMap(map[string]string{"WHO": fmt.Sprintf("user%d", i)})}
+		if prev != "" {
+			st.DependsOn = []string{prev}
+		}
+		prev = st.Name
+		stages = append(stages, st)
+	}
+	out := filepath.Join(dir, "seen")
+	c := task.FromCommands(fmt.Sprintf("printenv GREET_OUTPUT > %s", out))
+	c.Name = "consumer"
+	stages = append(stages, &scheduler.Stage{Name: "consumer", Task: c, DependsOn: []string{prev}})
+	cs := Case{Tags: []string{"shared-producer"}, NonTrivial: true, Replay: fmt.Sprintf("shared producer used by %d stages in sequence, then a consumer", uses)}
+	g, err := scheduler.NewExecutionGraph(stages...)
+	if err != nil {
+		cs.Fail, cs.Sig = err.Error(), "c11-build"
+		col.Add(cs)
+		return
+	}
+	r, _ := runner.NewTaskRunner()
+	r.Stdout, r.Stderr = devNull{}, devNull{}
+	sd := scheduler.NewScheduler(r)
+	sd.VerifSetPause(time.Millisecond)
+	if err := sd.Schedule(g); err != nil {
+		cs.Fail, cs.Sig = "pipeline failed: "+err.Error(), "c11-run"
+		col.Add(cs)
+		return
+	}
+	want := fmt.Sprintf("hello user%d\n", uses-1)
+	seen, _ := os.ReadFile(out)
+	switch {
+	case p.Output() != want:
+		cs.Fail, cs.Sig = fmt.Sprintf("captured output after the last execution is %q, that execution wrote %q", p.Output(), want), "c11-capture"
+	case string(seen) != want+"\n":
+		cs.Fail, cs.Sig = fmt.Sprintf("consumer read %q, the producer's last output is %q", string(seen), want), "c11-handover"
+	}
+	col.Add(cs)
 }
